@@ -1,7 +1,14 @@
 package websocket
 
 import (
+	"bufio"
+	"net"
+	"net/http"
+	"net/url"
+	"strings"
+
 	"github.com/lesismal/nbio"
+	"github.com/lesismal/nbio/mempool"
 )
 
 // C14 — callbacks ordered and exactly once; concurrent writes stay whole.
@@ -149,5 +156,88 @@ func verifHarness_C14_callbacks_ordered() {
 	if len(order) == 3 {
 		verifReach("all-delivered")
 	}
+	verifAssert(false, "witness")
+}
+
+// ---- the upgrade itself (scenario 4 of Upgrade: connection hijacked from a
+// foreign HTTP server, blocking mode with its own read-loop goroutine): the
+// open callback completes before any message callback starts.
+
+type verifHijackWriter struct {
+	conn net.Conn
+	hdr  http.Header
+}
+
+func (w *verifHijackWriter) Header() http.Header        { return w.hdr }
+func (w *verifHijackWriter) Write(b []byte) (int, error) { return len(b), nil }
+func (w *verifHijackWriter) WriteHeader(code int)        {}
+func (w *verifHijackWriter) Hijack() (net.Conn, *bufio.ReadWriter, error) {
+	return w.conn, nil, nil
+}
+
+// verifReadConn serves the given input to Read (one call each), then blocks
+// until closed.
+type verifReadConn struct {
+	verifFake
+	input [][]byte
+}
+
+func (c *verifReadConn) Read(b []byte) (int, error) {
+	verifYield()
+	if len(c.input) > 0 && !c.closed {
+		n := copy(b, c.input[0])
+		c.input = c.input[1:]
+		return n, nil
+	}
+	verifBlockUntil(func() bool { return c.closed })
+	return 0, net.ErrClosed
+}
+
+func verifHarness_C14_upgrade_open_before_message() {
+	verifBound("preemptions", 2)
+	eng := verifWsEngine(mempool.New(64, 1<<20))
+	DefaultEngine = eng
+	u := NewUpgrader()
+	u.Engine = eng
+	u.KeepaliveTime = 0
+	u.BlockingModAsyncWrite = verifChoose("async_write", 2) == 1
+	seq := 0
+	openDone, firstMsg := 0, 0
+	u.OnOpen(func(c *Conn) {
+		verifYield()
+		seq++
+		openDone = seq
+	})
+	u.OnMessage(func(c *Conn, mt MessageType, data []byte) {
+		seq++
+		if firstMsg == 0 {
+			firstMsg = seq
+		}
+	})
+	conn := &verifReadConn{input: [][]byte{{0x80 | byte(TextMessage), 2, 'h', 'i'}}}
+	conn.failAt = -1
+	w := &verifHijackWriter{conn: conn, hdr: http.Header{}}
+	r := &http.Request{Method: "GET", Header: http.Header{}, URL: &url.URL{Path: "/ws"}, Host: "h"}
+	r.Header.Set("Connection", "Upgrade")
+	r.Header.Set("Upgrade", "websocket")
+	r.Header.Set("Sec-Websocket-Version", "13")
+	r.Header.Set("Sec-Websocket-Key", "dGhlIHNhbXBsZSBub25jZQ==")
+	verifSched(true, 2)
+	wsc, err := u.Upgrade(w, r, nil)
+	verifAssertD(err == nil && wsc != nil, "upgrade-succeeds", "")
+	if err != nil {
+		return
+	}
+	// the handshake answer carries the RFC 6455 sample accept key
+	hs := string(conn.wire())
+	verifAssertD(strings.Contains(hs, "Sec-WebSocket-Accept: s3pPLMBiTxaQ9kYGzzhZRbK+xOo=\r\n"), "handshake-accept-key", "")
+	verifJoin()
+	verifAssertD(openDone > 0, "open-callback-ran", "")
+	if firstMsg > 0 {
+		verifReach("message-delivered")
+		verifAssertD(openDone < firstMsg, "open-callback-completes-before-first-message-callback", "")
+	}
+	conn.closed = true
+	verifJoin()
 	verifAssert(false, "witness")
 }
